@@ -332,6 +332,9 @@ func cmdCheck(args []string) int {
 		if *tier == "thorough" && h.Thorough != nil {
 			params = h.Thorough
 		}
+		if params == nil {
+			continue // harness entry not part of this tier
+		}
 		interp.Params = map[string]int{}
 		for k, v := range params {
 			interp.Params[k] = v
